@@ -8,6 +8,8 @@ import (
 	"strings"
 	"testing"
 
+	"github.com/yuin/goldmark/ast"
+	"github.com/yuin/goldmark/text"
 	xhtml "golang.org/x/net/html"
 	"pgregory.net/rapid"
 
@@ -18,7 +20,8 @@ import (
 
 func TestMain(m *testing.M) {
 	kit.Register("url", urlOracle)
-	kit.Describe("case = (safe-mode configuration, document) where the document places a URL built by the attack grammar (dangerous scheme with per-letter case flips, backslash escapes, named/decimal/hex references, percent-encoding, leading/embedded whitespace and control characters) into a URL-bearing construct (inline/reference link and image, <> and bare destinations, autolink, nested image-in-link, inside tables/footnotes/headings/lists/quotes), optionally surrounded by soup; every href/src of the output, decoded by a browser-like tokenizer and normalised the way the WHATWG URL parser preprocesses input, must not be dangerous; non-trivial = the same document rendered WithUnsafe does carry a dangerous href/src (so safe mode had something to neutralise); distinct by hash of (configuration, source)",
+	kit.Register("ast-url", astURLOracle)
+	kit.Describe("case = (safe-mode configuration, document) where the document places a URL built by the attack grammar (dangerous scheme with per-letter case flips, backslash escapes, named/decimal/hex references, percent-encoding, leading/embedded whitespace and control characters) into a URL-bearing construct (inline/reference link and image, <> and bare destinations, autolink, nested image-in-link, inside tables/footnotes/headings/lists/quotes), optionally surrounded by soup; every href/src of the output, decoded by a browser-like tokenizer and normalised the way the WHATWG URL parser preprocesses input, must not be dangerous; plus an AST-level tier: Link / Image / AutoLink nodes built through the public constructors (destination, protocol and label from the same grammar) and rendered in safe mode; non-trivial = the same document rendered WithUnsafe does carry a dangerous href/src (so safe mode had something to neutralise); distinct by hash of (configuration, source)",
 		"browser model = golang.org/x/net/html attribute decoding + WHATWG URL preprocessing (strip leading C0/space, drop TAB/LF/CR, ASCII lower-case)")
 	kit.Main(m, "C04")
 }
@@ -86,9 +89,57 @@ func urlOracle(c *kit.Case) error {
 	return nil
 }
 
+// astURLOracle: the tree is built through the public ast constructors (as a custom inline parser or an AST
+// transformer would) and rendered in safe mode: whatever the node carries, no href/src may be dangerous.
+func astURLOracle(c *kit.Case) error {
+	cfg := gen.ParseConfig(c.Config)
+	cfg.Unsafe = false
+	source := c.Bytes["label"]
+	doc := ast.NewDocument()
+	para := ast.NewParagraph()
+	doc.AppendChild(doc, para)
+	txt := ast.NewTextSegment(text.NewSegment(0, len(source)))
+	switch c.Strs["kind"] {
+	case "link":
+		l := ast.NewLink()
+		l.Destination = c.Bytes["dest"]
+		l.Title = c.Bytes["title"]
+		l.AppendChild(l, txt)
+		para.AppendChild(para, l)
+	case "image":
+		l := ast.NewLink()
+		l.Destination = c.Bytes["dest"]
+		l.AppendChild(l, txt)
+		para.AppendChild(para, ast.NewImage(l))
+	case "autolink", "autolink-email":
+		typ := ast.AutoLinkURL
+		if c.Strs["kind"] == "autolink-email" {
+			typ = ast.AutoLinkEmail
+		}
+		a := ast.NewAutoLink(typ, txt)
+		if p, ok := c.Bytes["proto"]; ok {
+			a.Protocol = p
+		}
+		para.AppendChild(para, a)
+	}
+	var buf bytes.Buffer
+	if err := cfg.MD().Renderer().Render(&buf, source, doc); err != nil {
+		return kit.Violf("render-error", "%v", err)
+	}
+	if v, bad := dangerousIn(buf.Bytes()); bad {
+		if c.Strs["kind"] == "autolink-email" {
+			return nil // an e-mail autolink always gets the mailto: scheme in front; what follows is not a scheme
+		}
+		return kit.Violf("dangerous-url", "programmatic %s node: href/src %q (normalised %q) in safe-mode output %q", c.Strs["kind"], v, oracle.NormalizeURL(v), buf.Bytes())
+	}
+	return nil
+}
+
 var schemes = []string{"javascript:", "javascript:", "vbscript:", "file:", "data:", "data:text/html,", "data:text/html;base64,", "data:image/svg+xml,", "data:image/svg+xmlx;", "data:image/bmp;", "data:IMAGE/png,", "file:///", "javascript://"}
 var benign = []string{"http:", "https://a.b/", "mailto:", "/rel", "data:image/png;base64,", "data:image/gif;", "data:image/svg+xml;utf8,", "java", "script:", "x-javascript:", "#", "?", ""}
-var rests = []string{"alert(1)", "x", "//x", "/etc/passwd", "a.b", "%0aalert(1)", "", "void(0)", "a&amp;b", "1"}
+var rests = []string{"alert(1)", "x", "//x", "/etc/passwd", "a.b", "%0aalert(1)", "", "void(0)", "a&amp;b", "1",
+	// an allowed data:image marker, or a harmless scheme, later in the URL must not whitewash the scheme in front
+	"alert(1)//data:image/png;", "x#data:image/svg+xml;", "?u=data:image/gif;base64,AA", "//https://ok.example/", "x;data:image/jpeg;", "%0Adata:image/webp;x", "//%0Aalert(1)", "//a b", "//[", "//h:port/"}
 
 var named = map[byte][]string{':': {"&colon;"}, '(': {"&lpar;"}, ')': {"&rpar;"}, '/': {"&sol;"}, ',': {"&comma;"}, ';': {"&semi;"}, '+': {"&plus;"}}
 
@@ -256,6 +307,31 @@ func TestURLAttack(t *testing.T) {
 	kit.Rapid(t, "attack", 250000, 12000000, func(t *rapid.T) {
 		cfg := gen.DrawConfig(t, gen.ConfigOpts{SafeOnly: true})
 		run(t, cfg, document(t), "attack")
+	})
+}
+
+func TestASTLevel(t *testing.T) {
+	kit.Rapid(t, "ast", 60000, 3000000, func(t *rapid.T) {
+		cfg := gen.DrawConfig(t, gen.ConfigOpts{SafeOnly: true})
+		kind := rapid.SampledFrom([]string{"link", "image", "autolink", "autolink", "autolink-email"}).Draw(t, "kind")
+		u, _ := buildURL(t, false)
+		c := kit.NewCase("ast-url", cfg.String()).S("kind", kind)
+		switch kind {
+		case "link", "image":
+			c.B("dest", []byte(u)).B("label", []byte("text")).B("title", []byte(rapid.SampledFrom([]string{"", "t", "\"q\""}).Draw(t, "title")))
+		default:
+			// URL() of an autolink is Protocol + "://" + label when a protocol is set, else the label
+			if rapid.Bool().Draw(t, "withproto") {
+				proto := rapid.SampledFrom([]string{"javascript", "JavaScript", "vbscript", "file", "data", "http", "java\tscript", " javascript", "javascript:alert(1)//"}).Draw(t, "proto")
+				c.B("proto", []byte(proto)).B("label", []byte(rapid.SampledFrom(rests).Draw(t, "rest")))
+			} else {
+				c.B("label", []byte(u))
+			}
+		}
+		if kit.Check(t, c) {
+			kit.R.Class("gen:ast-" + kind)
+			kit.R.NonTrivial(c)
+		}
 	})
 }
 
